@@ -24,7 +24,7 @@ const kubePkg = helmMod + "/pkg/kube"
 
 func runC12(w *World, r *Report) {
 	ef := NewEffects(w)
-	r.Rule("C12/ORDER", "the hook executor sorts with a stable sort whose comparator is (Weight, then Name) ascending, runs hooks sequentially, and per hook: before-hook-creation deletion → create → wait; the next hook is reached only from the ok-edges of create and wait", 7)
+	r.Rule("C12/ORDER", "the hook executor sorts with a stable sort whose comparator is (Weight, then Name) ascending, runs hooks sequentially, and per hook: before-hook-creation deletion → create → wait; the next hook is reached only from the ok-edges of create and wait", 6)
 	r.Rule("C12/DEFAULT-POLICY", "an empty delete-policy list is replaced by [before-hook-creation] before the first deletion test", 1)
 	r.Rule("C12/POLICY-DELETE", "deletion happens only through the policy-testing deleter (guarded by the policy test, never for CRDs); on a hook failure every path to the return passes the deleter for hook-failed and for the previous hooks' hook-succeeded; after overall success every hook passes the deleter for hook-succeeded; all failure edges return non-nil", 8)
 	r.Rule("C12/GATE", "with hooks enabled the pre-hook precedes every cluster write on manifest resources and its error edge reaches no such write; post-hook errors reach an error exit; with hooks disabled no hook executor call is reachable", 12)
@@ -118,59 +118,103 @@ func lessIsWeightThenName(less *ssa.Function) (bool, string) {
 		_, iy, ok2 := fieldLoadOfIndexed(bo.Y, field)
 		return ok1 && ok2 && ix == pi && iy == pj
 	}
-	var eqEdgesT, eqEdgesF []Edge
-	for _, b := range less.Blocks {
-		for _, in := range b.Instrs {
-			bo, ok := in.(*ssa.BinOp)
-			if !ok || (bo.Op != token.EQL && bo.Op != token.NEQ) {
-				continue
-			}
-			_, ix, ok1 := fieldLoadOfIndexed(bo.X, "Weight")
-			_, iy, ok2 := fieldLoadOfIndexed(bo.Y, "Weight")
-			if !ok1 || !ok2 || ix == iy {
-				continue
-			}
-			for _, e := range condEdges(bo) {
-				if e.truth == (bo.Op == token.EQL) {
-					eqEdgesT = append(eqEdgesT, e.Edge)
-				} else {
-					eqEdgesF = append(eqEdgesF, e.Edge)
-				}
-			}
+	// what is known about Weight(i) against Weight(j) on the way to each return
+	isW := func(idx ssa.Value) func(ssa.Value) bool {
+		return func(v ssa.Value) bool {
+			_, ix, ok := fieldLoadOfIndexed(v, "Weight")
+			return ok && ix == idx
 		}
 	}
-	if len(eqEdgesT) == 0 {
-		return false, "comparator never tests the weights for equality: ties are not ordered by name"
+	rels := relEdges(less, isW(pi), isW(pj))
+	if len(rels) == 0 {
+		return false, "comparator never compares the weights of the two hooks"
+	}
+	byRel := map[token.Token][]Edge{}
+	for _, e := range rels {
+		byRel[e.Rel] = append(byRel[e.Rel], e.Edge)
 	}
 	g := FullGraph(less)
+	known := func(at IPos) map[token.Token]bool {
+		k := map[token.Token]bool{}
+		for rel, es := range byRel {
+			if ex, _ := g.PathExists(entryPos(less), at, Avoid{}.withEdges(es...)); !ex {
+				k[rel] = true
+			}
+		}
+		if k[token.LSS] || k[token.GTR] {
+			k[token.NEQ] = true
+		}
+		if k[token.LSS] {
+			k[token.LEQ] = true
+		}
+		if k[token.GTR] {
+			k[token.GEQ] = true
+		}
+		if k[token.LEQ] && k[token.GEQ] {
+			k[token.EQL] = true
+		}
+		if k[token.EQL] {
+			k[token.LEQ], k[token.GEQ] = true, true
+		}
+		return k
+	}
 	nW, nN := 0, 0
+	var judge func(v ssa.Value, at IPos, d int) (bool, string)
+	judge = func(v ssa.Value, at IPos, d int) (bool, string) {
+		k := known(at)
+		if cb, isC := constBool(v); isC {
+			if cb && k[token.LSS] {
+				nW++
+				return true, ""
+			}
+			if !cb && k[token.GTR] {
+				nW++
+				return true, ""
+			}
+			return false, "a constant result is returned where the weights are not known to be ordered that way"
+		}
+		switch {
+		case isLT(v, "Weight"):
+			if !k[token.NEQ] {
+				return false, "Weight comparison is returned also when weights are equal"
+			}
+			nW++
+			return true, ""
+		case isLT(v, "Name"):
+			if !k[token.EQL] {
+				return false, "Name comparison is returned also when weights differ"
+			}
+			nN++
+			return true, ""
+		}
+		if phi, ok := v.(*ssa.Phi); ok && d < 3 {
+			for i, e := range phi.Edges {
+				p := phi.Block().Preds[i]
+				if len(p.Instrs) == 0 || !g.Reachable()[p] {
+					continue
+				}
+				if ok2, why := judge(e, IPos{p, len(p.Instrs) - 1}, d+1); !ok2 {
+					return false, why
+				}
+			}
+			return true, ""
+		}
+		return false, "comparator returns something other than the weight order or, for equal weights, the name order: " + v.String()
+	}
 	for _, b := range less.Blocks {
-		if len(b.Instrs) == 0 {
+		if len(b.Instrs) == 0 || !g.Reachable()[b] {
 			continue
 		}
 		ret, ok := b.Instrs[len(b.Instrs)-1].(*ssa.Return)
 		if !ok {
 			continue
 		}
-		v := ret.Results[0]
-		switch {
-		case isLT(v, "Weight"):
-			// must be on the not-equal side
-			if ex, _ := g.PathExists(entryPos(less), posOf(ret), Avoid{}.withEdges(eqEdgesF...)); ex {
-				return false, "Weight comparison is returned also when weights are equal"
-			}
-			nW++
-		case isLT(v, "Name"):
-			if ex, _ := g.PathExists(entryPos(less), posOf(ret), Avoid{}.withEdges(eqEdgesT...)); ex {
-				return false, "Name comparison is returned also when weights differ"
-			}
-			nN++
-		default:
-			return false, "comparator returns something other than x[i].Weight < x[j].Weight or x[i].Name < x[j].Name: " + v.String()
+		if ok2, why := judge(ret.Results[0], posOf(ret), 0); !ok2 {
+			return false, why
 		}
 	}
 	if nW == 0 || nN == 0 {
-		return false, "comparator lacks the weight or the name comparison"
+		return false, "comparator lacks the weight or the name comparison: ties are not ordered by name"
 	}
 	return true, "Less = (Weight ascending, ties by Name ascending)"
 }
@@ -594,6 +638,63 @@ func c12Policy(w *World, r *Report, ef *Effects, exec *ssa.Function) {
 		succLoop = append(succLoop, c)
 	}
 	okLoop := len(succLoop) > 0 && loopBodyAlwaysCalls(g, succLoop)
+	if len(succLoop) == 0 {
+		// range-over-func form: for _, h := range slices.Backward(hooks) { … } — the body is the yield
+		// function handed to the iterator; it must apply the deleter on every path and never stop early
+		for _, c := range callInstrs(exec) {
+			seq, isCall := c.Common().Value.(*ssa.Call)
+			if !isCall || len(c.Common().Args) != 1 {
+				continue
+			}
+			sf, _ := calleeOf(seq.Common())
+			if sf == nil || fnPkgPath(sf) != "slices" || (genericName(sf) != "Backward" && genericName(sf) != "All" && genericName(sf) != "Values") {
+				continue
+			}
+			mc, isMC := c.Common().Args[0].(*ssa.MakeClosure)
+			if !isMC {
+				continue
+			}
+			yf, _ := mc.Fn.(*ssa.Function)
+			if yf == nil || len(yf.Blocks) == 0 {
+				continue
+			}
+			// only on the success path (not reachable from the failed wait)
+			if reach, _ := g.PathExists(wa.At, posOf(c), Avoid{}.withEdges(waOK...)); reach {
+				continue
+			}
+			var dels []ssa.Instruction
+			for _, yc := range callInstrs(yf) {
+				if f, _ := calleeOf(yc.Common()); f != nil {
+					if idx, ok := deleters[origin(f)]; ok && constPolicyArg(yc, idx) == "hook-succeeded" {
+						dels = append(dels, yc)
+					}
+				}
+			}
+			if len(dels) == 0 {
+				continue
+			}
+			yg := FullGraph(yf)
+			all := true
+			for _, yb := range yf.Blocks {
+				if len(yb.Instrs) == 0 || !yg.Reachable()[yb] {
+					continue
+				}
+				ret, isRet := yb.Instrs[len(yb.Instrs)-1].(*ssa.Return)
+				if !isRet {
+					continue
+				}
+				// a yield function returning false stops the iteration: only after the deleter failed (an
+				// error is about to be reported) — here: every return is reached through the deleter
+				if ex, _ := yg.PathExists(entryPos(yf), posOf(ret), avoidInstrs(dels...)); ex {
+					all = false
+				}
+			}
+			if all {
+				okLoop = true
+				succLoop = dels
+			}
+		}
+	}
 	pos := w.Pos(exec.Pos())
 	if len(succLoop) > 0 {
 		pos = w.InstrPos(succLoop[0])
